@@ -315,7 +315,7 @@ func Check() *common.Check {
 		ID:    "C20",
 		Level: "exploration",
 		Rule: "every (input family, entry point) pair of the two catalogues in checks/c20/families.go and entries.go; a case is one pair, measured at every size of " +
-			"n = 8, 10 .. 64 and n = 2^4, 2^5, ... (quick: up to 2^14 elements and 512 KiB, regular-expression scanners 16 KiB; thorough: Tokenize and Parse up to the 10 MiB input / 1M token limits, other entry points up to 1 MiB, regular-expression scanners 256 KiB); " +
+			"n = 8, 10 .. 64 and n = 2^4, 2^5, ... (quick: up to 2^14 elements and 512 KiB, regular-expression scanners 64 KiB; thorough: Tokenize and Parse up to the 10 MiB input / 1M token limits, other entry points up to 1 MiB, regular-expression scanners 256 KiB); " +
 			"distinct = distinct (family, entry point); non-trivial = the entry point accepted the input at >= 3 sizes of the doubling ladder and executed >= 10^5 basic blocks at the largest one " +
 			"(so the two-doublings rule was really evaluated on it), or the case was found super-linear. After a violation the ladder ends at the first call above 5e7 (thorough 3e8) block executions; " +
 			"as a cap (exhaustive:false) it ends when one call exceeds 20 s",
